@@ -21,7 +21,8 @@ from core.engine import Property, F
 from core.prng import Rng
 from props import c01
 from props.c01 import (build, run_once, run_iso, RunTimeout, observe, model_view, markers, gen_toy, gen_builtin, shrink_case, gen_cfg,
-                       cached_failing_envs, logged_shuffled_envs, cache_bug_present, logged_envs, has_info_learner, strip_info)
+                       cached_failing_envs, logged_shuffled_envs, cache_bug_present, logged_envs, has_info_learner, strip_info,
+                       compare_with_model, is_leaky)
 
 
 def ids_of(triples):
@@ -165,7 +166,10 @@ class C03(Property):
         obs = None
         t_end = time.time() + c01.CASE_BUDGET
         timed_out = False
-        nocopy = {i for i, r in enumerate(case["lrns"]) if r.get("type") == "nocopy"}
+        nocopy = {i for i, r in enumerate(case["lrns"]) if r.get("type") == "nocopy" or r.get("nocopy")}
+        leaky = is_leaky(case)          # a toy evaluator that is not process-local clean: only the model's prediction is checked
+        if leaky:
+            tags.append("not-process-local-clean(A only)")
         for vname, vcase in variants:
             if timed_out:
                 break
@@ -250,22 +254,12 @@ class C03(Property):
                     tags.append("duplicate-triple")
                 # (A) + (C)
                 if driver is not None and kind == "toy" and not known_defect and not (cache_bug_present() and cached_failing_envs(case)):
-                    vobs = observe(vcase)
-                    picks = [Rng(run["sched"], "picks", i).below(97) for i in range(12)]
-                    ans = driver.ask(dict(vobs, seed=vcase["seed"], cfg=run["cfg"], picks=picks))
-                    model = ans["model"]
-                    mv = model_view(o["result"])
-                    for part in ("exp", "envs", "lrns", "vals", "ints"):
-                        if mv[part] != model[part]:
-                            fails.append(F("A", "%s triple list, cfg %s (%s): table %s of the real Result %s differs from the model's %s" % (
-                                vname, run["cfg"], run["how"], part, json.dumps(mv[part])[:300], json.dumps(model[part])[:300]), "A:" + part))
-                            break
-                    if ans["model"] != ans["spec"]:
-                        fails.append(F("C", "model: run %s differs from resultS" % (run["cfg"],), "C:run_eq_spec"))
-                    if len(markers(o["log"])) != len(ans["log"]):
-                        fails.append(F("A", "cfg %s: %d exceptions in the log, the model expects %d" % (run["cfg"], len(markers(o["log"])), len(ans["log"])), "A:log"))
-                    if o["lrn_states"] != ans["heap"]:
-                        fails.append(F("A", "cfg %s: learner objects after run %s, model %s" % (run["cfg"], o["lrn_states"], ans["heap"]), "A:heap"))
+                    if not (leaky and (run["how"] == "real" or (run.get("pre") or {}).get("how") == "real")):
+                        fs, ans = compare_with_model(driver, vcase, observe(vcase), run, o, vname + " triple list, ")
+                        fails += fs
+                        model = ans["model"]
+                if leaky:
+                    fails[:] = [f for f in fails if f["kind"] != "B"]
         if cache_bug_present() and cached_failing_envs(case):
             tags.append("skipA:cache-bug")
         return {"fails": fails, "nontrivial": ntriples >= 2 and nrows > 0, "tags": tags, "impl": {"triples": ntriples, "rows": nrows}, "model": model}
